@@ -121,6 +121,9 @@ def gen_beh(rng, n_inputs, *, callbacks=True, period_choices=(1_000_000, 2_000_0
         kind = rng.choice(("const", "counter", "sum", "sum", "counter"))
         o = {"port": rng.choice(("o", "out", "v")) if i == 0 else f"o{i}", "kind": kind,
              "v": rng.randrange(4), "mod": rng.choice((2, 3, 4)), "step": rng.choice((0, 1, 1, 2))}
+        if rng.random() < 0.15:
+            o["kind"] = "cycle"
+            o["vals"] = [rng.choice((None, None, 0, 1, 2)) for _ in range(rng.randrange(1, 4))]
         if rng.random() < 0.25:
             o["omit_mod"] = rng.choice((2, 3))
             o["omit_phase"] = rng.randrange(o["omit_mod"])
